@@ -37,11 +37,28 @@ func runSysStop(x *X) {
 		panic(err)
 	}
 	defer env.close()
+	slowProbe := false
 	if o.active && c.Intn(3, "slow-probe") == 0 {
+		slowProbe = true
 		env.mu.Lock()
 		env.backends[0].probeSlow = time.Duration(o.ptimeout+2) * time.Second // a stalled health endpoint
 		env.mu.Unlock()
 		x.Fault("probe-slow")
+	} else if o.active && c.Intn(2, "probe-slow-but-in-time") == 0 {
+		// health endpoints that take most of the probe timeout and then answer 200: the backends are
+		// healthy, a probe is in flight most of the time (also when the signal arrives)
+		env.mu.Lock()
+		for _, b := range env.backends {
+			b.probeSlow = time.Duration(o.ptimeout)*time.Second - time.Duration(200+c.Intn(500, "probe-margin-ms"))*time.Millisecond
+		}
+		env.mu.Unlock()
+		x.Probe("probe-slow-but-in-time")
+	}
+	// the signal does not only come right after start-up: let the prober get into its rhythm first, so
+	// that the signal can land anywhere in a probe round
+	if o.active && c.Intn(2, "lead-time") == 1 {
+		env.drive(driveOpts{idleFor: time.Duration(c.Intn(2*o.interval*1000, "lead-ms")) * time.Millisecond})
+		x.Probe("shutdown-after-lead-time")
 	}
 	nClients := 1 + c.Intn(3, "nclients")
 	for i := 0; i < nClients; i++ {
@@ -74,6 +91,12 @@ func runSysStop(x *X) {
 			x.Fault("request-longer-than-shutdown-timeout")
 		}
 		rs.holdFor = p.hold
+		// a slow client whose request head is still on its way when the signal comes: the connection is
+		// open and busy, the server waits for it, the request is served like any other
+		if c.Intn(3, "slow-head") == 0 {
+			ex.headPause = time.Duration(50+c.Intn(900, "head-pause-ms")) * time.Millisecond
+			x.Probe("slow-request-head")
+		}
 		ex.resp = rs
 		plans[ex.id] = p
 		all = append(all, ex)
@@ -195,6 +218,18 @@ func runSysStop(x *X) {
 				st, n, e = got.status, len(got.body), got.err
 			}
 			x.Violate("C19", "C19/in-flight-request-cut", "exchange %d was in flight when shutdown began at t=%v and needed only until t=%v (timeout %v) but did not complete in full: done=%v status=%d body=%d/%d err=%q", ex.id, invAt, finishBy, TD, ex.done, st, n, len(ex.resp.body), e)
+		}
+	}
+	// a request Helios answers during the drain is answered on its merits: every backend is up and
+	// answers its probes, so nothing justifies a 503 (shutting down is not a backend failure; a request
+	// that is not served at all sees its connection closed, which is the listener's business)
+	if !slowProbe {
+		for _, ex := range all {
+			if ex.done && ex.got != nil && ex.got.err == "" && ex.got.status == 503 {
+				x.Violate("C19", "C19/request-refused-during-drain{503}", "exchange %d (first bytes sent t=%v, shutdown began t=%v, returned t=%v) was answered 503 %q although every backend was up and answering its probes", ex.id, ex.startedAt, invAt, rAt, trunc(string(ex.got.body), 60))
+			} else if ex.done && ex.got != nil && ex.got.err == "" && ex.got.status == 200 && len(ex.seen) > 0 && ex.seen[0].at > invAt {
+				x.Probe("request-routed-during-drain")
+			}
 		}
 	}
 	// no probe after return: let a few intervals pass
